@@ -3,7 +3,7 @@ from __future__ import annotations
 
 import ast
 
-from ..core import AnalysisError, call_attr, call_name, calls_in, func_params, norm, short
+from ..core import AnalysisError, call_attr, call_name, calls_in, func_params, norm, parent, short
 from ..driver import Knockout, sub_nth, sub_once
 from ..report import Ctx
 from ..rules import mirror, solvers, tables
@@ -24,6 +24,72 @@ EXPLANATION = (
     "(order.frontinsert) and result provenance (score = metric(compile(circuit)), validate() first, stored copy) are "
     "checked as in C04. Does not decide that the choice logic drives the tableau to |0..0> for every graph, exactness of "
     "the state in either backend, or outcome independence.")
+
+
+# steps of the time-reversed protocol that run on *every* call of the method (confirmed by reading; one reason per line).  A call made
+# conditional ("fast path when every emitter is free") skips a step the next one relies on.
+_UNCONDITIONAL_STEPS = {
+    "_time_reversed_measurement": [
+        ("_single_out_emitter", "the measured generator must be a single Z on the chosen emitter before the Hadamard / measurement is applied"),
+        ("_add_measurement_cnot_and_reset", "the measurement that the step reverses"),
+    ],
+    "_single_out_emitter": [
+        ("_transform_generator_emitters", "free emitters can be entangled with each other (they just absorbed a whole component of a disconnected "
+                                          "target): the generator has to be reduced to one emitter by CNOTs whatever the history"),
+    ],
+    "_add_photon_absorption": [
+        ("_transform_generator_emitters", "the generator must act on one emitter only before the emission CNOT is placed"),
+        ("_add_emitter_photon_cnot", "the emission itself"),
+    ],
+}
+
+
+def rule_unconditional_steps(ctx: Ctx) -> None:
+    """flow.unconditional-step: the protocol steps listed in _UNCONDITIONAL_STEPS are top-level statements of their method: not nested under
+    an `if`, a loop or a try, and not governed by an argument that can switch them off (a callee parameter whose only use is to guard
+    the step)."""
+    repo = ctx.repo
+    m = repo.module(TRS)
+    ci = repo.cls("TimeReversedSolver", TRS)
+    ms = ci.methods()
+    for meth, steps in _UNCONDITIONAL_STEPS.items():
+        fn = ms.get(meth)
+        if fn is None:
+            raise AnalysisError(f"TimeReversedSolver.{meth} missing (table _UNCONDITIONAL_STEPS is out of date)")
+        ctx.touch(m, fn)
+        for callee, why in steps:
+            calls = [c for c in calls_in(fn) if (call_name(c) or "") == f"self.{callee}"]
+            if not calls:
+                ctx.fail("flow.unconditional-step", m, fn, f"TimeReversedSolver.{meth} no longer calls {callee}: {why}", func=f"TimeReversedSolver.{meth}",
+                         construct=f"{meth}: {callee} missing")
+                continue
+            top = [c for c in calls if any(isinstance(st, (ast.Expr, ast.Assign)) and any(x is c for x in ast.walk(st)) for st in fn.body)]
+            if top:
+                ctx.ok("flow.unconditional-step", m, top[0], what=f"{meth}: {callee} on every call")
+            else:
+                c = calls[0]
+                g = parent(c)
+                while g is not None and not isinstance(g, (ast.If, ast.For, ast.While, ast.Try)):
+                    g = parent(g)
+                cond = f"`{short(g.test)}`" if isinstance(g, ast.If) else "a loop / try block"
+                if isinstance(g, ast.If):
+                    # whether the step has something to do is a property of the tableau; a guard that *looks at the tableau* ("only if the
+                    # generator still acts on several emitters") may be a correct no-op test and is not decided here, a guard that does
+                    # not (a flag, a counter, the history) cannot know
+                    tabs = {p_ for p_ in func_params(fn)[1:] if "tableau" in p_ or p_ in ("tab", "stabilizer_tableau")}
+                    loc = {a.targets[0].id: a.value for a in ast.walk(fn) if isinstance(a, ast.Assign) and len(a.targets) == 1 and isinstance(a.targets[0], ast.Name)}
+
+                    def reads_tab(e, d=0):
+                        for x in ast.walk(e):
+                            if isinstance(x, ast.Name) and (x.id in tabs or (d < 2 and x.id in loc and reads_tab(loc[x.id], d + 1))):
+                                return True
+                        return False
+                    if reads_tab(g.test):
+                        raise AnalysisError(f"TimeReversedSolver.{meth}: {callee} is guarded by a test on the tableau ({cond}); whether that guard is a correct "
+                                            f"'nothing to do' test is not decided")
+                ctx.fail("flow.unconditional-step", m, c,
+                         f"TimeReversedSolver.{meth} calls {callee} only under {cond}: {why}", func=f"TimeReversedSolver.{meth}",
+                         construct=f"{meth}: {callee} conditional")
 
 
 def rule_index_space(ctx: Ctx) -> None:
@@ -147,6 +213,7 @@ def rule_index_space(ctx: Ctx) -> None:
 
 def run(ctx: Ctx) -> None:
     rule_index_space(ctx)
+    rule_unconditional_steps(ctx)
     from ..rules import echelon as _echelon
     _echelon.arm(ctx)
     from .c11 import rule_inverse_blocks, rule_block_conditions
@@ -261,6 +328,7 @@ def rule_target_shared(ctx: Ctx) -> None:
 
 
 KNOCKOUTS = [
+    Knockout("disentangling-skipped-on-a-flag", TRS, sub_once("        self._transform_generator_emitters(\n            circuit, tableau, generator_index, emitter_index\n        )\n\n        if tableau.phase[generator_index] == 1:", "        if self.n_emitter > 1 and len(circuit.emitter_registers) > 1 and circuit.depth > 0:\n            self._transform_generator_emitters(\n                circuit, tableau, generator_index, emitter_index\n            )\n\n        if tableau.phase[generator_index] == 1:"), "flow.unconditional-step", "_transform_generator_emitters conditional"),
     Knockout("absorption-reads-search-loop-variable", TRS, sub_once('        gate_list = self._change_pauli_type(tableau, generator_index, photon_index, "z")\n        self._add_one_qubit_gate(circuit, gate_list, photon_index)\n', '        gate_list = self._change_pauli_type(tableau, i, photon_index, "z")\n        self._add_one_qubit_gate(circuit, gate_list, photon_index)\n'), "search.fallthrough", "_add_photon_absorption"),
     Knockout("sign-repair-without-photon-offset", TRS, sub_nth("            transform.x_gate(tableau, self.n_photon + emitter_index)\n", "            transform.x_gate(tableau, emitter_index)\n", 0), "index.space", "both index spaces"),
     Knockout("one-qubit-gate-split-strict", TRS, sub_once("        if index >= self.n_photon:\n            reg_type = \"e\"", "        if index > self.n_photon:\n            reg_type = \"e\""), "index.split", "position n_photon"),
